@@ -185,6 +185,8 @@ class Theory:
             raise TypeError
 
         self.add_data("theorems", name, th)
+        # The cached schematic version belongs to the statement being replaced.
+        self.data.get("theorems_svar", dict()).pop(name, None)
 
     def has_theorem(self, name):
         """Returns whether the current theory contains the given theorem."""
